@@ -246,6 +246,27 @@ func c19GenReq(rng *verifkit.Rand, nets []string, removed []string) (string, str
 	}
 }
 
+// c19Zoned: an IP literal with a zone suffix that ends in the base domain of a configured wildcard
+// pattern, e.g. "::ffff:7f05:607%x.svc.test" for "*.svc.test". It is an IP literal (a zone is not a
+// host name), so no domain pattern can permit it; only a present network covering the address can.
+func c19Zoned(rng *verifkit.Rand, base string, a netip.Addr) (string, string) {
+	b := a.As4()
+	hex := fmt.Sprintf("%02x%02x:%02x%02x", b[0], b[1], b[2], b[3])
+	switch rng.Intn(8) {
+	case 0:
+		return "::ffff:" + hex + "%X." + strings.ToUpper(base), "zoned-ipv4-mapped"
+	case 1:
+		return "::ffff:" + hex + "%25x." + base, "zoned-ipv4-mapped"
+	case 2:
+		return "0::ffff:" + hex + "%x." + base, "zoned-ipv4-mapped"
+	case 3:
+		return "0:0:0:0:0:ffff:" + hex + "%eth0." + base, "zoned-ipv4-mapped"
+	case 4:
+		return []string{"::1", "fe80::1", "::", "fd00::1"}[rng.Intn(4)] + "%x." + base, "zoned-ipv6"
+	}
+	return "::ffff:" + hex + "%x." + base, "zoned-ipv4-mapped"
+}
+
 // c19Permitted: is a connection to dest (as observed at the listener), opened for request req,
 // justified by the networks present now / the allowed patterns?
 func c19Permitted(req string, dest netip.Addr, nets []string, patterns []string) bool {
@@ -348,6 +369,7 @@ func TestVerif_C19(t *testing.T) {
 	r.Require("refused_ipv4_dest_by_ipv6_only_config", 200)
 	r.Require("ipv6_literal_not_permitted", 40)
 	r.Require("rebind_probes_hostile", 100)
+	r.Require("zoned_literal_probes", 100)
 	r.Require("rebind_connected_to_checked_address", 15)
 }
 
@@ -386,6 +408,9 @@ func c19History(r *verifkit.R, ci int, rng *verifkit.Rand, env *c19Env) {
 		}
 		for i, k := 0, rng.Intn(4); i < k; i++ {
 			patterns = append(patterns, c19PatternPool[rng.Intn(len(c19PatternPool))])
+		}
+		if rng.Chance(1, 3) {
+			patterns = append(patterns, []string{"*.svc.test", "*.test.local", "*.example.com", "*.local"}[rng.Intn(4)])
 		}
 	}
 	routes, err := exit.ParseAllowedRoutes(static)
@@ -446,6 +471,24 @@ func c19History(r *verifkit.R, ci int, rng *verifkit.Rand, env *c19Env) {
 
 	probe := func() bool {
 		req, form := c19GenReq(rng, present(), removed)
+		var wild []string
+		for _, pt := range patterns {
+			if strings.HasPrefix(pt, "*.") {
+				wild = append(wild, strings.ToLower(pt[2:]))
+			}
+		}
+		if len(wild) > 0 && rng.Chance(1, 4) { // zoned literals dressed up as a sub-domain of an allowed wildcard
+			tgt := c19RandV4(rng)
+			if ps := present(); len(ps) > 0 && rng.Bool() {
+				if pn, ok := kitParseNet(ps[rng.Intn(len(ps))]); ok {
+					tgt = c19Boundary(pn, rng)
+				}
+			}
+			if tgt.Is4() {
+				req, form = c19Zoned(rng, wild[rng.Intn(len(wild))], tgt)
+				r.Add("zoned_literal_probes", 1)
+			}
+		}
 		if famMode == 2 && rng.Chance(1, 3) { // IPv6 destinations against an IPv4-only exit
 			req, form = []string{"::1", "0:0:0:0:0:0:0:1", "::", "fd00::1", "2001:db8::1", "fe80::1", "::2"}[rng.Intn(7)], "ipv6"
 		}
@@ -495,7 +538,8 @@ func c19History(r *verifkit.R, ci int, rng *verifkit.Rand, env *c19Env) {
 			// (nothing to resolve) that no present network covers, an answer with a connection-level
 			// error code (refused / timeout / host or network unreachable) instead of a refusal means
 			// the handler went on to dial it.
-			if l6, e6 := netip.ParseAddr(req); e6 == nil && l6.Zone() == "" && l6.Unmap().Is6() {
+			if l6, e6 := netip.ParseAddr(req); e6 == nil && l6.WithZone("").Unmap().Is6() {
+				l6 = l6.WithZone("")
 				r.Add("ipv6_literal_probes", 1)
 				if !c19InAny(l6, nets) {
 					r.Add("ipv6_literal_not_permitted", 1)
@@ -552,6 +596,8 @@ func c19History(r *verifkit.R, ci int, rng *verifkit.Rand, env *c19Env) {
 			}
 			class := "outside-every-network:" + form
 			switch {
+			case strings.HasPrefix(form, "zoned-"):
+				class = "zoned-literal-ending-in-allowed-wildcard-base:" + form
 			case len(nets) > 0 && c19OnlyFamily(nets, false):
 				class = "ipv6-only-configuration:" + form
 			case c19InAny(a.Dest, removed):
